@@ -888,7 +888,9 @@ class Client:
 
             try:
                 self.channel.write(bytes(request))
-                return await self.pending_response
+                return await self.connection.cancel_on_disconnection(
+                    self.pending_response
+                )
             finally:
                 self.pending_request = None
                 self.pending_response = None
